@@ -672,6 +672,17 @@ def run(ctx):
             case2 = {"kind": "scores", "obs": o2, "sim": s2, "trans": [tnm, tkw],
                      "excludenull": True, "nullclass": cls}
             run_scores_case(ctx, case2)
+            # the same gaps with the switch off, and gaps in one series only
+            if cls != "inf":
+                run_scores_case(ctx, dict(case2, excludenull=False))
+            s3, o3 = sim.copy(), obs.copy()
+            if it % 2:
+                s3[idx] = np.nan
+            else:
+                o3[idx] = np.nan
+            run_scores_case(ctx, {"kind": "scores", "obs": o3, "sim": s3,
+                                  "trans": [tnm, tkw], "excludenull": False,
+                                  "nullclass": "nan-one-series"})
         # clean data: excludenull must not change anything
         case3 = dict(case, excludenull=True)
         run_scores_case(ctx, case3)
